@@ -9,7 +9,8 @@ from vlib.harness import Violation
 ID = 'C20'
 LEVEL = 'exploration'
 CONTAINERS = ['array', 'list', 'hdf5']
-CONTAINERS_GEN = ['array', 'list', 'hdf5', 'array_i4bounds', 'array_u8bounds', 'hdf5_gzip', 'array_view', 'array_window', 'hdf5_window']
+CONTAINERS_GEN = ['array', 'list', 'hdf5', 'array_i4bounds', 'array_u8bounds', 'hdf5_gzip', 'array_view', 'array_window', 'hdf5_window',
+                  'array_pickled', 'list_pickled', 'array_deepcopy', 'list_deepcopy', 'window_pickled']
 RULE = ('Exhaustive: for collections of length n=0..4 (quick) / 0..6 (thorough) in each of SignatureArray, SignatureList and '
         'file-backed HDF5Signatures: every int index in -n-2..n+1 (Python and NumPy ints), every slice with start/stop in '
         '{None,-n-2..n+2} and step in {None,0,+-1..+-(n+1)}, every index list of length <= 3 over -n-1..n (as list, tuple, int64/int32 '
@@ -70,6 +71,16 @@ def get_container(ctx, kind, lens, dtype='u2', k=5, prefix='AT'):
 		c = load_signatures(path)
 	elif kind == 'list':
 		c = SignatureList(sigs, spec, dtype=np.dtype(dtype))
+	elif kind in ('array_pickled', 'list_pickled', 'array_deepcopy', 'list_deepcopy', 'window_pickled'):
+		# a collection that went through pickle (what multiprocessing does with arguments and results) or copy.deepcopy
+		import pickle, copy
+		if kind.startswith('window'):
+			pad = [np.array([7, 8, 9], dtype=dtype), np.array([5], dtype=dtype)]
+			big = SignatureArray(pad + sigs + pad, spec, dtype=np.dtype(dtype))
+			src = SignatureArray.from_arrays(big.values, big.bounds[2:2 + len(sigs) + 1], spec)
+		else:
+			src = SignatureArray(sigs, spec, dtype=np.dtype(dtype)) if kind.startswith('array') else SignatureList(sigs, spec, dtype=np.dtype(dtype))
+		c = pickle.loads(pickle.dumps(src, protocol=(2 if len(sigs) % 2 else pickle.HIGHEST_PROTOCOL))) if kind.endswith('pickled') else copy.deepcopy(src)
 	else:
 		path = ctx.fresh_path('.gs')
 		dump_signatures(path, SignatureArray(sigs, spec, dtype=np.dtype(dtype)))
